@@ -28,12 +28,61 @@ def schema5():
     return {"types": types, "enums": {"E": gen.ENUM_E}}
 
 
+def schema6():
+    """pairs of a singular and a repeated field of the same scalar type (a decision taken for one must not leak to the other)"""
+    fs, n = [], 1
+    for k in ("int32", "sint64", "string", "fixed32", "bool", "double", "enum", "bytes"):
+        fs.append(F("s_" + k, n, k, enum="E" if k == "enum" else ""))
+        fs.append(F("r_" + k, n + 1, k, "repeated", enum="E" if k == "enum" else ""))
+        n += 2
+    fs += [F("m", n, "message", msg="Inner"), F("rm", n + 1, "message", "repeated", msg="Inner"),
+           F("o_i", n + 2, "int32", "oneof", group="g"), F("o_s", n + 3, "string", "oneof", group="g"), F("opt", n + 4, "int32", "optional")]
+    return {"types": {"Inner": [F("x", 1, "sint64"), F("s", 2, "string")], "M6": fs}, "enums": {"E": gen.ENUM_E}}
+
+
+def occurrence_inputs(rnd, quick):
+    """every ordered sequence of <= 2 (sampled: 3, 4) field occurrences over {field number of M6, an unknown number} x {varint, fixed64,
+    length-delimited (2, 4, 8 payload bytes), fixed32}: fitting and non-fitting wire types next to each other, in both orders"""
+    import itertools
+    s6 = schema6()
+    nums = [f["num"] for f in s6["types"]["M6"]] + [99]
+
+    def tag(num, wt):
+        v, out = (num << 3) | wt, []
+        while True:
+            out.append((v & 0x7F) | (0x80 if v > 0x7F else 0))
+            v >>= 7
+            if not v:
+                return bytes(out)
+    occ = []
+    for n in nums:
+        occ.append(tag(n, 0) + b"\x03")
+        occ.append(tag(n, 1) + bytes([8, 4, 8, 4, 8, 4, 8, 4]))
+        occ.append(tag(n, 5) + bytes([8, 4, 8, 4]))
+        for pay in (bytes([8, 4]), bytes([8, 4, 8, 4]), bytes([8, 4, 8, 4, 8, 4, 8, 4])):
+            occ.append(tag(n, 2) + bytes([len(pay)]) + pay)
+    out = [("m6", "M6", o, "occ1") for o in occ]
+    pairs = list(itertools.product(occ, repeat=2))
+    if quick:
+        pairs = rnd.sample(pairs, 9000)
+    out += [("m6", "M6", a + b, "occ2") for a, b in pairs]
+    for _ in range(3000 if quick else 60000):
+        out.append(("m6", "M6", b"".join(rnd.choice(occ) for _ in range(rnd.choice([3, 3, 4]))), "occ3"))
+    return out
+
+
 def mal_event(args):
     which, ty, b, tag = args
     if which == "wide":
         w = msgev.world()
         schema, C = w["schema"], w["bp"]
         R = msgev.ref_classes()
+    elif which == "m6":
+        if "s6" not in _W:
+            _W["s6"] = schema6()
+            _W["bp6"] = dyn.make_bp(_W["s6"])
+            _W["ref6"] = dyn.make_ref(_W["s6"])
+        schema, C, R = _W["s6"], _W["bp6"], _W["ref6"]
     else:
         if "s5" not in _W:
             _W["s5"] = schema5()
@@ -175,6 +224,7 @@ def run(ctx):
         for t in itertools.product(ALPHA, repeat=n):
             ins.append(("m5", "M5", bytes(t), "alpha"))
     rnd = ctx.rnd
+    ins += occurrence_inputs(rnd, quick)
     if not quick:
         for _ in range(150000):
             ins.append(("m5", "M5", bytes(rnd.choice(ALPHA) for _ in range(4)), "alpha4"))
@@ -199,6 +249,8 @@ def run(ctx):
     m5 = [e for e in events if e["case"]["schema"] == "m5"]
     ctx.validate("Trace_Codec", wide, header={"schema": msgev.world()["schema"]}, shard=6000)
     ctx.validate("Trace_Codec", m5, header={"schema": schema5()}, shard=6000)
+    m6 = [e for e in events if e["case"]["schema"] == "m6"]
+    ctx.validate("Trace_Codec", m6, header={"schema": schema6()}, shard=6000)
     agree = sum(1 for e in events if (e["res"] == "raise") == (e["ref"] == "reject"))
     ctx.notes["inputs"] = len(events)
     ctx.notes["betterproto_raises"] = sum(1 for e in events if e["res"] == "raise")
